@@ -87,6 +87,29 @@ def shard_fn(sh):
             T.labels_in(t, st.sets['labels'])
             TP.check_formats(st, [[ScoredTree(tree, -1.0)]], lang, formats, dict(lang=lang, tree=repr(t), words=ws, engine='c19'))
         st.sets['vocabulary'] |= {str(v) for v in voc}
+    elif kind == 'tokens':
+        # every token of the token alphabet (quotes, brackets, backslashes, markup characters, non-ASCII, ...) at every leaf of a small
+        # derivation, alone and in the middle of a batch of ordinary sentences: rendering must not raise (only that is judged here)
+        U = universe(lang, tier)
+        small = [next(t for t in U if T.n_leaves(t) == k) for k in (1, 2)]
+        plain = TP.make_tree(small[1], ['w0', 'w1'], lang)
+        for t in small:
+            n = T.n_leaves(t)
+            for w in T.ALL_TOKENS[lo:hi]:
+                for pos in range(n):
+                    ws = [w if i == pos else f'w{i}' for i in range(n)]
+                    for shape in ('alone', 'middle'):
+                        tree = TP.make_tree(t, ws, lang)
+                        batch = [[ScoredTree(tree, -1.0)]] if shape == 'alone' else [[ScoredTree(plain, -1.0)], [ScoredTree(tree, -1.0)], [ScoredTree(plain, -1.0)]]
+                        st.count('token_batches')
+                        st.count('nontrivial')
+                        for fmt in formats:
+                            st.count('renderings')
+                            try:
+                                TP.render(copy.deepcopy(batch) if fmt == 'jigg_xml' else batch, fmt)
+                            except Exception as e:
+                                st.violation(f'{lang}/{fmt}/render_error/{type(e).__name__}:{str(e)[:40]}/{TP.token_class(w)}', f'{lang} {fmt}: rendering a sentence with the token {w!r} raised {e!r}',
+                                             lang=lang, fmt=fmt, tree=repr(t), words=ws, engine='c19_tokens', shape=shape)
     elif kind == 'batches':
         boot.load_parsing()
         failed = real_placeholder()
@@ -117,6 +140,7 @@ def check(tier, seed):
         shards += [('trees', lang, tier, lo, min(n, lo + step)) for lo in range(0, n, step)]
         shards.append(('cover', lang, tier, 0, 0))
         shards.append(('batches', lang, tier, 0, 0))
+        shards += [('tokens', lang, tier, lo, lo + 12) for lo in range(0, len(T.ALL_TOKENS), 12)]
     st = core.pmap(shard_fn, core.rotate(shards, seed))
     labels = sorted(map(str, st.sets.pop('labels', [])))
     voc = sorted(st.sets.pop('vocabulary', []))
@@ -124,8 +148,8 @@ def check(tier, seed):
     return core.finish(PROP, tier, seed, 'exploration', st, t0,
                        rule=('licensed derivations of both grammars over their lexicons (<=3 words) with the shipped unary tables plus synthetic unary entries, completed by one derivation for every label of the rule-function vocabulary '
                              '(read from grammar/en.py, grammar/ja.py) not reached otherwise; tokens with all annotator attributes and bare Token.of_word tokens; the failure placeholder taken from a real failing depccg.parsing.run; '
-                             'every batch of <=3 sentences over {parsed, failed}; x every format of the CLI choice lists (read from depccg/argparse.py) except the two ccg2lambda ones: rendering must not raise and the parsed '
-                             'sentences must decode to their derivations. non-trivial = batches mixing parsed and failed sentences'),
+                             'every batch of <=3 sentences over {parsed, failed}; every token of the token alphabet (quotes, brackets, backslashes, markup characters, non-ASCII; mc/trees.py ALL_TOKENS) at every leaf of a one- and a two-word derivation, alone and between two ordinary sentences (rendering must not raise); x every format of the CLI choice lists (read from depccg/argparse.py) except the two ccg2lambda ones: rendering must not raise and the parsed '
+                             'sentences must decode to their derivations. non-trivial = batches mixing parsed and failed sentences + token batches'),
                        nontrivial=max(2, st.c['nontrivial']), evaluations=st.c['renderings'],
                        extra=dict(cli_formats=fm, label_vocabulary_of_rule_functions=voc, label_vocabulary_rendered=labels),
                        assumptions=['ccg2lambda and jigg_xml_ccg2lambda need nltk + yaml and are excluded'])
@@ -139,6 +163,15 @@ def replay(rec):
     formats = [rec['fmt']] if rec.get('fmt') else [f for f in cli_formats()[lang] if f not in EXCLUDED]
     t = ast.literal_eval(rec['tree'])
     tree = TP.make_tree(t, rec['words'], lang, rich=rec.get('rich_tokens', True))
+    if rec.get('engine') == 'c19_tokens':
+        plain = TP.make_tree(next(u for u in universe(lang, 'quick') if T.n_leaves(u) == 2), ['w0', 'w1'], lang)
+        batch = [[ScoredTree(tree, -1.0)]] if rec.get('shape') == 'alone' else [[ScoredTree(plain, -1.0)], [ScoredTree(tree, -1.0)], [ScoredTree(plain, -1.0)]]
+        try:
+            TP.render(batch, rec['fmt'])
+        except Exception as e:
+            print('REPRODUCED', f'rendering raised {e!r}')
+            return 1
+        return 0
     if rec.get('engine') == 'c19_batch':
         failed = real_placeholder()
         batch = [[ScoredTree(tree, -1.0)] if p == 'P' else copy.deepcopy(failed) for p in rec['pattern']]
